@@ -120,6 +120,15 @@ def jobs(ctx):
     return [(c, {}) for c in cfgs] + hist.variations(ctx, cfgs, ctx.n(10, 100))
 
 
+def payloads(ctx):
+    """The C11 oracle and replay need only the occupancy internals, the active state, the picks and the deltas:
+    fresh in-state generation and in-state recording of the tracer are switched off (smaller, faster traces)."""
+    seeds = (ctx.seed, ctx.seed + 1000) if ctx.tier == "thorough" else (ctx.seed,)
+    max_legs = ctx.n(250, 800)
+    return [{"config": c, "seed": s, "max_legs": max_legs, "overrides": ov, "record_fresh": False,
+             "record_instates": False} for (c, ov) in jobs(ctx) for s in seeds]
+
+
 def run(ctx, replay_jobs=None):
     C.build_scratch(ctx, exts=("heap", "mic", "ipc"))
     nlegs = ctx.n(150, 400)
@@ -129,7 +138,7 @@ def run(ctx, replay_jobs=None):
         "cell configurations replayed in Coq (check_ocase: model state == recorded internals at every leg, hypotheses "
         "of update_inv, cell changes of the active unit only at cell-boundary events into the neighbouring cell); "
         "oracle: tracecheck.check_occupancy recomputes position_to_cell for every unit against the recorded lists",
-        jobs=None if replay_jobs else jobs(ctx), replay_jobs=replay_jobs, coq_legs=nlegs, prebuilt=True)
+        replay_jobs=replay_jobs if replay_jobs is not None else payloads(ctx), coq_legs=nlegs, prebuilt=True)
 
 
 def replay(ctx, path):
